@@ -17,6 +17,7 @@ META = {
 }
 
 SH = ("E", "SE", "S", "N")
+ST = ("E", "SE", "S", "T")
 
 
 def _mk(op, n, shapes=SH):
@@ -39,6 +40,25 @@ def run(chk):
     rules.Case("nest/or-or-last", lambda a, b, c: E(S("or"), a, E(S("or"), b, c)), 3, B, kind="arity_bounded")
     rules.Case("nest/and-not-or", lambda a, b, c: E(S("and"), E(S("not"), a), E(S("or"), b, c)), 3, B, kind="arity_bounded")
     names += ["nest/and-or", "nest/or-and", "nest/and-and", "nest/or-or-last", "nest/and-not-or"]
+    # operands that carry result temporaries (the shape `if`/`try`/`match` results have), arity <= 4
+    for op in ("and", "or"):
+        for n in range(1, 5):
+            rules.Case(f"{op}/{n}/temp-operands", lambda *o, op=op: E(S(op), *o), n, ST, kind="arity_bounded")
+            names.append(f"{op}/{n}/temp-operands")
+    # systematic depth-2 composites: an inner and/or (real form, real BoolOp/If emission) in every slot of a 4-ary outer
+    for outer in ("and", "or"):
+        for inner in ("and", "or"):
+            for pos in range(4):
+                def mk(a, b, c, x, y, outer=outer, inner=inner, pos=pos):
+                    ops = [a, b, c]
+                    ops.insert(pos, E(S(inner), x, y))
+                    return E(S(outer), *ops)
+                nm = f"nest/{outer}-with-{inner}-at-{pos}"
+                rules.Case(nm, mk, 5, B if chk.tier == "thorough" else ("E", "SE"), kind="arity_bounded")
+                names.append(nm)
+    rules.Case("nest/and-of-if", lambda a, b, c, d: E(S("and"), E(S("if"), a, b, c), d), 4, B, kind="arity_bounded")
+    rules.Case("nest/or-of-try", lambda a, b, c: E(S("or"), E(S("try"), a, E(S("finally"), b)), c), 3, B, kind="arity_bounded")
+    names += ["nest/and-of-if", "nest/or-of-try"]
     chk.fn("hy/core/result_macros.py::compile_logical_or_and_and_operator (closures put/get/enbool)",
            "hy/compiler.py::Result.force_expr", "hy/compiler.py::HyASTCompiler.get_anon_var")
     chk.bounds["arity"] = f"0..{hi}"
